@@ -679,4 +679,7 @@ class DomainPredicates:
                     domain_rules[atom2pred(elem.literal.atom)].append(
                         (elem.literal.atom, list(chain(elem.condition, body)))
                     )
+        # an input predicate may receive further atoms from the instance, its rules do not describe its domain
+        for pred in self.unique_names.input_predicates:
+            domain_rules.pop(pred, None)
         self.add_domain_rules(domain_rules)
